@@ -266,7 +266,7 @@ def drop_redundant_levels(evs):
     lastm = {}
     out = []
     for ev in evs:
-        if ev[0] == "marker" and RESET_AT_MARKERS[0]:
+        if ev[0] == "marker" and RESET_AT_MARKERS[0] and ev[1] == "loop":
             # pass boundaries carry a havocked device state (inductive steps): forget pin history
             last, lastm = {}, {"__havoc__": True}
         if ev[0] == "motor":
